@@ -18,6 +18,26 @@ def roles(net, live):
         out[i] = (role, prim, members)
     return out
 
+def claims_without_candidacy(net):
+    """nodes that claimed the primary role out of start_election's FIRST wait loop ('No opp registered, will set as primary') while they were
+    a secondary: their candidate message was never sent (a secondary's replication loop fans nothing out), nobody could object, and the claim
+    does not ask whether the node is eligible.  Returns [(node, script index)]."""
+    role = {}; site = {}; out = []
+    for ix, (s, o) in enumerate(zip(net.script, net.out)):
+        m = re.match(r"@(\d+) ", s)
+        if not m: continue
+        i = int(m.group(1))
+        before = role.get(i)
+        for l in o:
+            y = re.match(r"Y parked (\d+) (\S+)", l)
+            if y: site[(i, int(y.group(1)))] = y.group(2)
+        done = [int(y.group(1)) for l in o for y in [re.match(r"Y done (\d+)", l)] if y]
+        newrole = next((l.split(" ")[2] for l in o if l.startswith("D role ")), None)
+        for cid in done:
+            if site.get((i, cid), "").endswith("wait-registered") and before == "Secoundary" and newrole == "Primary": out.append((i, ix))
+        if newrole: role[i] = newrole
+    return out
+
 def verdict(net, live, pids, what, hist):
     """exactly one primary, the oldest live node; everybody else secondary; everybody names the same primary"""
     fails = []
@@ -27,21 +47,29 @@ def verdict(net, live, pids, what, hist):
     ctx = f"after {what}; live nodes {[(f'n{i}', pids[i-1]) for i in live]}; roles {[(f'n{i}', r[i][0], r[i][1]) for i in live]}; history {hist}"
     if len(prims) == 0: fails.append(Failure(f"no-primary:{what}", ctx))
     elif len(prims) > 1: fails.append(Failure(f"two-primaries:{what}", ctx))
-    elif prims[0] != oldest: fails.append(Failure(f"primary-is-not-the-oldest:{what}", ctx))
+    elif prims[0] != oldest:
+        usurpers = [i for (i, _) in claims_without_candidacy(net)]
+        if what != "formation" and prims[0] in usurpers:
+            fails.append(Failure("secondary-claimed-by-registration-timeout", f"n{prims[0]} claimed the primary role out of the registration wait of an election it ran as a SECONDARY (its candidacy was never sent); " + ctx))
+        else: fails.append(Failure(f"primary-is-not-the-oldest:{what}", ctx))
     if len(prims) == 1:
         if any(r[i][0] != "Secoundary" for i in live if i != prims[0]): fails.append(Failure(f"node-neither-primary-nor-secondary:{what}", ctx))
         want = [f"n{prims[0]}"]
         if any(r[i][1] != want for i in live): fails.append(Failure(f"cluster-state-names-another-primary:{what}", ctx))
     return fails
 
-def scenario(k, pids, trigger, targ):
+def scenario(k, pids, trigger, targ, lazy=False):
     def fn(net, rng, pids=pids):
         pids = list(pids)
+        # eager: a wait-loop turn is taken only when nothing can be delivered (the quantifier's schedules);
+        # lazy: messages take 0-3 rounds of 2 ms (still below the 10 ms election timeout), so acknowledgements arrive BETWEEN turns
+        settle = (lambda until=None: net.settle_lazy(rng, until=until)) if lazy else (lambda until=None: net.settle(rng, until=until))
         hist = [f"form {k} nodes pids {pids}"]
         ok = cluster.form_cluster(net, k, rng, co=True, pids=pids)
         if any("PANIC" in l for o in net.out for l in o): return [Failure("panic:formation", next(l for o in net.out for l in o if "PANIC" in l)[:200])]
         if not ok: return [Failure("election-does-not-terminate:formation", f"{k} nodes pids {pids}: parked {net.parked}, pending {net.pending()[:4]}, ticks {net.ticks}")]
         live = list(range(1, k + 1))
+        if lazy: net.pump_rng = core.XorShift(rng.below(1 << 30) + 1)
         fails = verdict(net, live, pids, "formation", hist)
         if fails or trigger == "none": return fails
         for i in live: net.op(i, "SESS 1"); net.op(i, "C 1 auth adm pw")
@@ -57,10 +85,42 @@ def scenario(k, pids, trigger, targ):
             r = roles(net, live)
             p = next(i for i in live if r[i][0] == "Primary")
             hist.append(f"primary n{p} dies")
+            net.kill(p)
             for j in live:
                 if j != p: net.disconnect(p, j)
             live = [i for i in live if i != p]
-            # nothing of the dead node is delivered or resumed any more
+        elif trigger == "force-staggered":
+            # a second election starts while the first one sits in its final pause (acks received, 100 ms before claiming)
+            a, b = targ
+            hist.append(f"debug force-election on n{a}; when it has its acknowledgements and pauses before claiming: debug force-election on n{b}")
+            net.cmd(a, 1, "debug force-election")
+            if not settle(until=lambda nt: any(x[0] == a and x[2].endswith("final-wait") for x in nt.parked)):
+                return [Failure(f"election-does-not-terminate:{trigger}", f"parked {net.parked}, ticks {net.ticks}; history {hist}")]
+            hist.append(f"(n{a} parked: {[x for x in net.parked if x[0] == a]})")
+            if lazy:
+                r0 = net.round; extra = rng.below(50)
+                settle(until=lambda nt: nt.round >= r0 + extra)
+                hist.append(f"(the second election is forced {2 * extra} ms into the pause)")
+            net.cmd(b, 1, "debug force-election")
+        elif trigger == "primary-dies-staggered":
+            # the survivors notice the primary's death at different times: the first one is already pausing before its claim when the second one notices
+            r = roles(net, live)
+            p = next(i for i in live if r[i][0] == "Primary")
+            others = [i for i in live if i != p]
+            first = others[targ % len(others)]
+            hist.append(f"primary n{p} dies; n{first} notices first, the others when n{first} pauses before claiming")
+            net.kill(p)
+            net.disconnect(p, first)
+            if not settle(until=lambda nt: any(x[0] == first and x[2].endswith("final-wait") for x in nt.parked)):
+                return [Failure(f"election-does-not-terminate:{trigger}", f"parked {net.parked}, ticks {net.ticks}; history {hist}")]
+            if lazy:
+                # … at a random moment of that 100 ms pause
+                r0 = net.round; extra = rng.below(50)
+                settle(until=lambda nt: nt.round >= r0 + extra)
+                hist.append(f"(the others notice {2 * extra} ms into the pause)")
+            for j in others:
+                if j != first: net.disconnect(p, j)
+            live = others
             net.parked = [x for x in net.parked if x[0] != p]
         elif trigger == "primary-dies-twice":
             # two successive failures: the primary stops, the others elect; then the new primary stops too
@@ -70,24 +130,24 @@ def scenario(k, pids, trigger, targ):
                 if len(ps) != 1: return verdict(net, live, pids, f"primary-dies-{round_}", hist)
                 p = ps[0]
                 hist.append(f"primary n{p} dies")
+                net.kill(p)
                 for j in live:
                     if j != p: net.disconnect(p, j)
                 live = [i for i in live if i != p]
-                net.parked = [x for x in net.parked if x[0] != p]
-                if not net.settle(rng):
+                if not settle():
                     return [Failure(f"election-does-not-terminate:{trigger}", f"parked {net.parked}, ticks {net.ticks}; history {hist}")]
         elif trigger == "rejoin-older":
             # a node leaves and joins again (it keeps its start time only if it did not restart; here it restarts: new, youngest id)
             hist.append(f"n{targ} leaves and a new n{targ} joins")
             for j in live:
                 if j != targ: net.disconnect(targ, j)
-            if not net.settle(rng): return [Failure("election-does-not-terminate:leave", f"parked {net.parked}; history {hist}")]
+            if not settle(): return [Failure("election-does-not-terminate:leave", f"parked {net.parked}; history {hist}")]
             pids[targ - 1] = max(pids) + 100
             net.reset(targ, "startingup", f"n{targ}", pids[targ - 1], "pump,sup,co")
             r = roles(net, [i for i in live if i != targ])
             via = next(i for i in live if i != targ and r[i][0] == "Primary")
             net.join(targ, via)
-        if not net.settle(rng):
+        if not settle():
             return [Failure(f"election-does-not-terminate:{trigger}", f"parked {net.parked}, pending {net.pending()[:4]}, ticks {net.ticks}; history {hist}")]
         if any("PANIC" in l for o in net.out for l in o): return [Failure(f"panic:{trigger}", next(l for o in net.out for l in o if "PANIC" in l)[:200] + f"; history {hist}")]
         return verdict(net, live, pids, trigger, hist)
@@ -108,13 +168,39 @@ def scenarios(tier):
                 S.append((f"k{k}-force-two-12-{pids}", scenario(k, pids, "force-two", (1, 2))))
                 S.append((f"k{k}-rejoin-{pids}", scenario(k, pids, "rejoin-older", 3)))
                 S.append((f"k{k}-primary-dies-twice-{pids}", scenario(k, pids, "primary-dies-twice", None)))
+                for t in (0, 1): S.append((f"k{k}-primary-dies-staggered{t}-{pids}", scenario(k, pids, "primary-dies-staggered", t)))
+                for ab in ((2, 3), (3, 2), (1, 2), (2, 1), (3, 1), (1, 3)): S.append((f"k{k}-force-staggered-{ab}-{pids}", scenario(k, pids, "force-staggered", ab)))
+            else:
+                for ab in ((1, 2), (2, 1)): S.append((f"k{k}-force-staggered-{ab}-{pids}", scenario(k, pids, "force-staggered", ab)))
+    # the same triggers with message delays above zero (below the timeout): the acknowledgement path of start_election
+    # (acks observed by the wait loop, the 100 ms pause, the eligibility check after it) is only reachable this way
+    L = []
+    for k in (2, 3):
+        perms = list(itertools.permutations([100 * i for i in range(1, k + 1)]))
+        if tier == "quick": perms = perms[:2]
+        for pids in perms:
+            pids = list(pids)
+            for t in range(1, k + 1): L.append((f"lazy-k{k}-force-n{t}-{pids}", scenario(k, pids, "force", t, lazy=True)))
+            L.append((f"lazy-k{k}-primary-dies-{pids}", scenario(k, pids, "primary-dies", None, lazy=True)))
+            if k == 3:
+                L.append((f"lazy-k{k}-force-two-{pids}", scenario(k, pids, "force-two", (2, 3), lazy=True)))
+                for t in (0, 1): L.append((f"lazy-k{k}-primary-dies-staggered{t}-{pids}", scenario(k, pids, "primary-dies-staggered", t, lazy=True)))
+                L.append((f"lazy-k{k}-force-staggered-{pids}", scenario(k, pids, "force-staggered", (3, 2), lazy=True)))
+    reps = 2 if tier == "quick" else 12
+    for r in range(reps):
+        for (n_, f_) in L: S.append((f"{n_}#{r}", f_))
     return S
 
 RULE = ("clusters of 2 and 3 real nodes with distinct start times in every join order (permutations of the ages), formed through the real join path with elections running as coroutines: a command that reaches start_election runs on its own thread and parks at a yield point in each of the "
         "two wait loops and before the final pause; the network delivers every deliverable message (seeded-random FIFO order) before any parked election takes one 2 ms turn — messages are faster than the election timeout (NUN_ELECTION_TIMEOUT = 10 ms = 5 turns), so a timeout fires only when the awaited acknowledgement can never arrive. "
-        "Triggers: initial start-up, joins, debug force-election on each node, two forced elections at once, the primary dying (all its connections end), the next primary dying as well, a node leaving and a fresh one joining. At quiescence: exactly one primary, it is the oldest live node, every other node is secondary, every cluster-state names that primary. "
+        "Triggers: initial start-up, joins, debug force-election on each node, two forced elections at once, the primary dying (all its connections end), the next primary dying as well, a node leaving and a fresh one joining, and STAGGERED triggers: a second forced election, or the second survivor noticing the primary's death, exactly when the first election has its acknowledgements and pauses before claiming. At quiescence: exactly one primary, it is the oldest live node, every other node is secondary, every cluster-state names that primary. "
+        "An `election candidate` (or any command that can hold an election) that arrives over a peer connection as `rp <id> …` runs on its own thread as well, and — as in the real server, where the connection's handler thread is inside start_election — the following lines of THAT connection wait behind it. "
+        "LAZY schedules (second half of the scenarios): time advances in rounds of 2 ms; in each round every deliverable message is delivered or held back at random, never longer than 3 rounds (6 ms < the 10 ms timeout), then every waiting election takes exactly one turn; an election in its 100 ms pause resumes 50 rounds after it got there; "
+        "which of a node's two loops (replication / supervisor) gets to its queue first is drawn per operation. Only under these schedules do acknowledgements arrive BETWEEN two turns of the wait loop, so only here is the acknowledgement path of start_election (acks observed, pause, eligibility check) reached at all: with zero delays a fully acknowledged candidacy is removed from the pending table before the first look at it, and the election ends through its registration timeout. "
+        "A node that stops (kill) receives nothing more and its parked commands never resume; the survivors notice at their own times. When model and implementation differ and no scenario fails, the differing scenarios are re-run under 80 further delivery orders each. "
         "The Lean model (Node.electionBegin / electionResume) runs every primitive operation in lockstep. distinct by trace hash")
 
 def main(tier, seed):
     return netrunner.run(PID, LEAN_MODULE, THEOREMS, scenarios(tier), RULE, tier, seed,
-                         assumptions=["message delays stay below the election timeout (a wait-loop turn is taken only when nothing can be delivered)", "links are FIFO and lossless"])
+                         assumptions=["message delays stay below the election timeout: eager scenarios take a wait-loop turn only when nothing can be delivered; lazy scenarios hold a message for at most 3 rounds = 6 ms (timeout 10 ms)", "links are FIFO and lossless",
+                                      "one global clock: in a lazy round every waiting election takes exactly one 2 ms turn (threads of one machine do not drift against each other)"])
